@@ -156,6 +156,10 @@ DEFAULT_RULES = [
     ("local-static-const", r"\bstatic const\b(?= (?:u?int\d+_t|size_t|int|char) \w+ =)", "const"),
     ("auto-cast", r"\bauto (\w+) = \(([^()]+)\)\(", r"\2 \1 = (\2)("),
     ("nullptr", r"\bnullptr\b", "NULL"),
+    # a label directly in front of a loop header gets an empty statement, so that a backward goto to
+    # the label and the loop's own back-edge have different targets (CBMC merges back-edges that
+    # share a target and then silently drops the loop contract). Pure addition, no semantics.
+    ("label-before-loop", r"(?m)^(\s*\w+):[ \t]*\n(\s*)(while|for|do)\b", r"\1: ;\n\2\3"),
     ("noexcept", r"\bnoexcept\b", ""),
 ]
 
@@ -224,7 +228,7 @@ def slice_unit(name, u, outdir, manifest):
     line = src.count("\n", 0, start) + 1
     kind = u.get("kind", "func")
     fired = {}
-    rules = list(u.get("rules", [])) + ([] if u.get("no_default_rules") else DEFAULT_RULES)
+    rules = ([] if u.get("no_default_rules") else DEFAULT_RULES) + list(u.get("rules", []))
     pre, post = "", ""
 
     if kind in ("table", "struct", "enum"):
@@ -260,7 +264,7 @@ def slice_unit(name, u, outdir, manifest):
         params = src[op + 1:cp]
         body = src[ob:cb + 1]
         cparams, refs = lower_params(params, name)
-        cname = u.get("cname", name)
+        cname = u.get("cname", name.split(".")[-1])
         # return type = head minus the function identifier
         mh = re.match(r"^(.*?)(\w+)\s*$", head, re.S)
         if not mh:
